@@ -7,3 +7,4 @@ import Stingray.Props.C13
 import Stingray.Props.C02
 import Stingray.Props.C18
 import Stingray.Props.C04
+import Stingray.Props.C01
